@@ -47,6 +47,22 @@ fn show_attrs(m: &HashMap<String, Option<String>>) -> String {
     s
 }
 
+
+/// every text up to 3 bytes over a hostile alphabet, whole and split across two character-strings
+pub fn tiny_txt_contents() -> Vec<Vec<Vec<u8>>> {
+    let alpha: [u8; 8] = [b'"', b';', b'=', b'\\', b'.', b'a', 0, 0xFF];
+    let mut out: Vec<Vec<Vec<u8>>> = vec![vec![vec![]], vec![vec![], vec![]]];
+    for len in 1..=3usize {
+        for mut code in 0..alpha.len().pow(len as u32) {
+            let mut t = vec![];
+            for _ in 0..len { t.push(alpha[code % alpha.len()]); code /= alpha.len(); }
+            out.push(vec![t.clone()]);
+            for cut in 0..=len { out.push(vec![t[..cut].to_vec(), t[cut..].to_vec()]); }
+        }
+    }
+    out
+}
+
 fn txt_of(strings: &[Vec<u8>]) -> TXT<'static> {
     let mut t = TXT::new();
     for s in strings { t.add_char_string(mk_cs(s)); }
@@ -135,16 +151,17 @@ pub fn cases(tier: &str, seed: u64) -> Vec<Case> {
     }
     // attributes() and long_attributes() on arbitrary character-strings
     let n = if thorough { 30000 } else { 2500 };
-    for _ in 0..n {
+    let tiny = tiny_txt_contents();
+    for it in 0..(n + tiny.len()) {
         let k = r.below(5) as usize;
-        let strings: Vec<Vec<u8>> = (0..k).map(|_| {
+        let strings: Vec<Vec<u8>> = if it >= n { tiny[it - n].clone() } else { (0..k).map(|_| {
             let l = r.below(14) as usize;
             match r.below(5) {
                 0 => r.bytes(l),
                 1 => { let mut b = rand_string(&mut r, l).into_bytes(); if !b.is_empty() && r.chance(1, 3) { let i = r.below(b.len() as u64) as usize; b[i] = 0xFF; } b }
                 _ => { let pool = ["a", "b", "a=", "a=1", "b=2", "=x", "a=b=c", "k", ";", "a;b=1", "é=ü"]; let mut s = r.pick(&pool).to_string(); if r.chance(1, 3) { s.push_str(&rand_string(&mut r, 3)); } s.into_bytes() }
             }
-        }).collect();
+        }).collect() };
         let t = txt_of(&strings);
         let mut args = format!("{}", strings.len());
         for x in &strings { args.push(' '); args.push_str(&hex(x)); }
@@ -161,7 +178,7 @@ pub fn cases(tier: &str, seed: u64) -> Vec<Case> {
         }
         if want != attrs { c = c.fail("attributes", format!("{:?}", strings)); }
         v.push(c);
-        let long = t.clone().long_attributes();
+        let long = match std::panic::catch_unwind(std::panic::AssertUnwindSafe(|| t.clone().long_attributes())) { Ok(x) => x, Err(_) => { v.push(Case::oracle_only().fail("long-attributes-panic", format!("long_attributes panicked on {:?}", strings))); continue; } };
         let lout = match &long { Ok(m) => format!("ok {}", show_attrs(m)), Err(_) => "err".to_string() };
         let mut c = Case::new(format!("txt.long {}", args), lout).tag("long_attributes");
         let flat: Vec<u8> = strings.concat();
